@@ -317,7 +317,7 @@ func buildJavaTree(c *run.Ctx, o *run.Outcome, dir string) (root string, ok bool
 		os.MkdirAll(filepath.Dir(path), 0o755)
 		ioutil.WriteFile(path, []byte(controllerText(r, i)), 0o644)
 	}
-	// service classes with different lifecycles (pairs of methods sharing a leading verb): the evaluation summary
+	// service classes with different lifecycles (two to four methods sharing a leading verb): the evaluation summary
 	// reports them per service
 	verbs := []string{"sync", "load", "charge", "ship", "audit", "refund", "merge", "publish"}
 	for i := 0; i < r.Range(2, 5); i++ {
@@ -326,6 +326,10 @@ func buildJavaTree(c *run.Ctx, o *run.Outcome, dir string) (root string, ok bool
 		for k := r.Range(1, 3); k > 0; k-- {
 			v := verbs[(i*3+k)%len(verbs)]
 			sb.WriteString(fmt.Sprintf("    public void %sOrder%d() { }\n    public void %sInvoice%d() { }\n", v, i, v, i))
+			// two, three or four methods per verb (no draw: the rest of the project stays what it was)
+			for x, noun := range []string{"Parcel", "Ledger"}[:(i+k)%3] {
+				sb.WriteString(fmt.Sprintf("    public void %s%s%d() { }\n", v, noun, i+x))
+			}
 		}
 		sb.WriteString("    public String describe() { return \"\"; }\n}\n")
 		path := filepath.Join(dir, "svc", fmt.Sprintf("Billing%dService.java", i))
